@@ -1,13 +1,18 @@
 #!/bin/bash
 # Runs every seeded change under /verif/seeded against the checks recorded as catching it
-# (and against its own property's check), using harness/seedtest.sh (scratch copy of /repo).
-# Prints one line per (seed, check): CAUGHT / MISSED.
+# (and against its own property's check), using harness/seedtest.sh (scratch copies of /repo and /verif),
+# ${JOBS:-4} seeds at a time.  Prints one line per (seed, check): CAUGHT / MISSED.
 cd "$(dirname "$0")/.."
-for d in seeded/*/; do
+one() {
+  d=$1
   id=$(basename $d)
   checks=$(python3 -c "import json; m=json.load(open('$d/meta.json')); print(' '.join(sorted(set(m['caught_by']+[m['property']]))))")
   out=$(harness/seedtest.sh "$PWD/$d" $checks 2>&1)
   for c in $checks; do
-    if echo "$out" | grep -q "VIOLATION property=$c"; then echo "$id $c CAUGHT"; else echo "$id $c MISSED"; fi
+    if echo "$out" | grep -q "VIOLATION property=$c"; then
+      if echo "$out" | grep "VIOLATION property=$c" | grep -q "no-failing-input-found"; then echo "$id $c CAUGHT (no-failing-input-found)"; else echo "$id $c CAUGHT"; fi
+    else echo "$id $c MISSED"; fi
   done
-done
+}
+export -f one
+ls -d seeded/*/ | sed 's#/$##' | xargs -P ${JOBS:-4} -I{} bash -c 'one {}'
